@@ -23,11 +23,30 @@
     list schema, `valuesrules`, `items`, an *of definition and an `allow_unknown`
     rule set, the shorthand form and the canonical form expand to the same schema,
     and expansion of the result changes nothing (`C15_idempotent_instance`).
+  * `C15_rename_complete`, `C15_rename_idempotent` — for *every* rule set with distinct keys: after the
+    renaming pass none of the three deprecated names is left, the keys are still distinct, every
+    other rule is where it was, and a second pass changes nothing (`Proofs/Rename.lean`);
+  * `C15_shorthand_complete`, `C15_canonical`, `C15_canonical_fixed_point` — for every rule set with
+    distinct keys: a completed shorthand pass leaves no `<operator>_<rule>` key; the three passes in the
+    order `expand` applies them give a rule set without spaced names, shorthands and deprecated names
+    (`S.CanonicalRules`), and every such rule set is a fixed point of the passes — expansion is idempotent
+    at the level of a rule set (`Proofs/Logical.lean`, `Proofs/Canonical.lean`);
+  * `C15_level_canonical` — one level of `expandFields` on any field mapping: every rule set of the result is
+    canonical (the recursive step between the second and the third pass rewrites constraints, not rule names:
+    `subschemasWith_keys`, `Proofs/ExpandLevel.lean`).  The statement for the rule sets *below* the first level
+    (inside `schema`, bulk rules, `*of` members, …) would follow by induction on the fuel over a predicate on the
+    nested structure; it is not proved and remains instance- and port-decided;
+  * `C15_spaces_complete` — for every rule set with distinct keys: after the name-normalizing pass no
+    rule name contains a space, and a second pass changes nothing (`Proofs/Names.lean`).
   The unbounded "wherever in the schema" clause is decided by the accept port and
   the oracle over random rewritings at every eligible position; finding F15c lists
   the one position class where the code does not expand.
 -/
 import Cerberus.Model.Schema
+import Cerberus.Proofs.Rename
+import Cerberus.Proofs.Names
+import Cerberus.Proofs.Canonical
+import Cerberus.Proofs.ExpandLevel
 namespace Cerberus
 open S
 
@@ -65,6 +84,72 @@ theorem C15_deprecated (c : Val) :
     renameRules [(.s "validator", c)] = some [(.s "check_with", c)] ∧
     renameRules [(.s "type", c)] = some [(.s "type", c)] := by
   refine ⟨?_, ?_, ?_, ?_⟩ <;> rfl
+
+/-- **after the renaming pass no deprecated rule name is left in a rule set** (whatever the rule set holds: any
+    rules, any constraints, any size), its keys stay distinct, and every rule that is neither a deprecated name nor the
+    replacement of one is where it was -/
+theorem C15_rename_complete (rules out : List (Key × Val)) (hnd : (Val.dkeys rules).Nodup)
+    (h : renameRules rules = some out) :
+    Val.dlookup out (.s "keyschema") = Option.none ∧ Val.dlookup out (.s "validator") = Option.none ∧
+    Val.dlookup out (.s "valueschema") = Option.none ∧ (Val.dkeys out).Nodup ∧
+    (∀ q : Key, q ∉ [Key.s "keyschema", .s "keysrules", .s "validator", .s "check_with", .s "valueschema", .s "valuesrules"] →
+      Val.dlookup out q = Val.dlookup rules q) :=
+  renameRules_complete rules out hnd h
+
+/-- **the renaming pass is idempotent**: a renamed rule set is a fixed point -/
+theorem C15_rename_idempotent (rules out : List (Key × Val)) (hnd : (Val.dkeys rules).Nodup)
+    (h : renameRules rules = some out) : renameRules out = some out :=
+  renameRules_idempotent rules out hnd h
+
+/-- the hypotheses are met by a rule set with all three deprecated names -/
+example : ∃ out, renameRules [(.s "validator", .str "f"), (.s "type", .str "dict"), (.s "keyschema", .dict []),
+      (.s "valueschema", .dict [])] = some out ∧ out.length = 4 := ⟨_, rfl, rfl⟩
+
+/-- **after the name-normalizing pass no rule name of a rule set contains a space** (any rule set with distinct keys),
+    and a second pass changes nothing -/
+theorem C15_spaces_complete (rules : List (Key × Val)) (hnd : (Val.dkeys rules).Nodup) :
+    (∀ n, Key.s n ∈ Val.dkeys (normalizeNames rules) → hasSpace n = false) ∧
+    normalizeNames (normalizeNames rules) = normalizeNames rules :=
+  ⟨fun n hn => by simpa [spacedKey] using (normalizeNames_complete rules hnd).2 (.s n) hn,
+   normalizeNames_idempotent rules hnd⟩
+
+/-- **when the shorthand pass completes, no `<operator>_<rule>` key is left in the rule set** -/
+theorem C15_shorthand_complete (rules : List (Key × Val)) (hnd : (Val.dkeys rules).Nodup)
+    (hfin : (expandLogicalRules rules).2 = false) :
+    ∀ n, Key.s n ∈ Val.dkeys (expandLogicalRules rules).1 → splitOf n = none := by
+  intro n hn
+  have := (expandLogicalRules_complete rules hnd hfin).2 (.s n) hn
+  simpa [ofKey] using this
+
+/-- **the three rewriting passes, applied to one rule set in the order `expand` applies them, produce a canonical rule
+    set** — no rule name with a space, no shorthand, no deprecated name, distinct keys — for every rule set with
+    distinct keys, whatever its rules and constraints -/
+theorem C15_canonical (rules out : List (Key × Val)) (hnd : (Val.dkeys rules).Nodup) (h : canonRules rules = some out) :
+    CanonicalRules out :=
+  canonRules_canonical rules out hnd h
+
+/-- **the canonical form is a fixed point** (expanding an expanded rule set changes nothing), and in particular
+    the passes are idempotent -/
+theorem C15_canonical_fixed_point (rules out : List (Key × Val)) (hnd : (Val.dkeys rules).Nodup)
+    (h : canonRules rules = some out) : canonRules out = some out :=
+  canonRules_idempotent rules out hnd h
+
+/-- the hypotheses are met, with all three kinds of rewriting at work -/
+example : (canonRules [(.s "anyof type", .seq false [.str "integer", .str "string"]), (.s "validator", .str "f"),
+      (.s "allow unknown", .bool true)]).map (fun out => Val.dkeys out) =
+    some [.s "allow_unknown", .s "anyof", .s "check_with"] := by decide
+
+/-- **every rule set of an expanded field mapping is canonical**: one level of `expand` (with any fuel left for the
+    levels below) applied to any field mapping whose rule sets have distinct keys — when the shorthand pass completes,
+    every rule set of the result is free of spaced names, shorthands and deprecated names.  The recursive step in
+    between rewrites constraints only (`subschemasWith_keys`). -/
+theorem C15_level_canonical (n : Nat) (fields out : List (Key × Val))
+    (hnd : ∀ f rs, (f, Val.dict rs) ∈ fields → (Val.dkeys rs).Nodup)
+    (hfin : (expandLogical (fields.map (fun kv => match kv.2 with
+      | .dict rs => (kv.1, Val.dict (normalizeNames rs)) | _ => kv))).2 = false)
+    (h : expandFields (n + 1) fields = some out) :
+    ∀ f rs, (f, Val.dict rs) ∈ out → CanonicalRules rs :=
+  expandFields_level n fields out hnd hfin h
 
 /-- old and new name in one rule set: refused (RuntimeError in the code) -/
 theorem C15_deprecated_conflict (c d : Val) :
